@@ -144,8 +144,11 @@ def run(tier):
             continue
         seen.add(b["line"])
         r, o = rows[b["line"] - 1], owner[b["line"] - 1]
-        pl = (o or r).get("planner", r.get("planner", "?"))
-        job = jobs_by_id.get((o or r).get("job"))
+        if r["e"] in ("Crash", "Hang") and "planner" in r:   # reported by the parent process: names its own run
+            pl, job = r["planner"], jobs_by_id.get(r.get("job"))
+        else:
+            pl = (o or r).get("planner", r.get("planner", "?"))
+            job = jobs_by_id.get((o or r).get("job"))
         for clause in sorted(b["failed"]):
             rp = ck.replay_file("job-%s-%s.json" % (pl, clause), json.dumps({"job": job, "event": r}, indent=1))
             ck.violation("%s:%s" % (pl, clause),
@@ -177,10 +180,16 @@ def run(tier):
     # control planners: same life-cycle model, solutions judged by the control path contract
     import c03_control
     c03_control.control_lifecycle(ck, tier, graph=(g, out))
+    # the input-state iterator behind resumed solves, and the lazy goal sampling thread it waits for
+    import c03_inputstates
+    c03_inputstates.input_states(ck, tier)
     return ck.finish()
 
 
 def replay(path):
+    if os.path.basename(path).startswith(("inputstates-", "goallazy-")):
+        import c03_inputstates
+        return c03_inputstates.replay(path)
     if os.path.basename(path).startswith("ctrl-"):
         import c03_control
         return c03_control.replay_control(path)
